@@ -224,13 +224,23 @@ def one_case(ctx, ge, alg, regs, cfg, name, op):
         if kind == 'raising-None':
             # coefficients on which the generated function raises at run time (arithmetic on None): the cache entry must survive that
             vals = [[None for _ in ks] for ks in keysets]
+        elif kind in ('keys-as-range', 'keys-as-list'):
+            # the same key pattern handed to the public constructor in another container (range where contiguous, else list)
+            mvs = []
+            for ks in keysets:
+                tk = tuple(ks)
+                cont = range(tk[0], tk[-1] + 1) if (kind == 'keys-as-range' and tk and tk == tuple(range(tk[0], tk[-1] + 1))) else list(tk)
+                mvs.append(alg.multivector(keys=cont, values=[2 + i for i, _ in enumerate(tk)]))
+            return target(*mvs)
         elif kind == 'same-values':
             vals = [[1 + i for i, _ in enumerate(ks)] for ks in keysets]
         else:
             vals = [values(rng, alg, ks, kind, f'{tag}{j}_') for j, ks in enumerate(keysets)]
         from kingdon.multivector import MultiVector
         # keep the key container as it is (a range stays a range): the cache is looked up with mv.keys()
-        mvs = [MultiVector.fromkeysvalues(alg, ks if isinstance(ks, range) else tuple(ks), v if hasattr(v, 'shape') else list(v)) for ks, v in zip(keysets, vals)]
+        # a range of keys goes through the public constructor (which owns the normalisation of key containers)
+        mvs = [alg.multivector(keys=ks, values=v if hasattr(v, 'shape') else list(v)) if isinstance(ks, range)
+               else MultiVector.fromkeysvalues(alg, tuple(ks), v if hasattr(v, 'shape') else list(v)) for ks, v in zip(keysets, vals)]
         return target(*mvs)
 
     def call_in_thread(kind, tag):
@@ -286,6 +296,8 @@ def one_case(ctx, ge, alg, regs, cfg, name, op):
     if ctx.evaluations % 40 == 1:
         ctx.sample({'config': name, 'op': op, 'keys': [list(k) for k in keysets], 'first_call_events': d, 'first_call_cache_growth': growth})
     kinds = list(KINDS)
+    if not any(isinstance(ks, range) for ks in keysets) and not cfg.get('opts', {}).get('graded'):
+        kinds += ['keys-as-range', 'keys-as-list']
     rng.shuffle(kinds)
     kinds.insert(rng.randint(1, 3), 'raising-None')
     for j, kind in enumerate(kinds):
